@@ -108,6 +108,9 @@ def atom(t, X):
         return sp.sin(a + b) if v[0] != v[-1] else sp.sin(a)
     if f == "exp":
         return sp.exp(a) / 8
+    if f == "abs":
+        # |x| / 2 as written with plain (not assumed positive) symbols
+        return sp.sqrt(a**2) / 2
     raise HarnessError(f"unknown atom {f}")
 
 
@@ -118,12 +121,25 @@ def entry(terms, X):
     return e
 
 
+# constant parameters a user's metric may carry, named like quantities of the
+# library itself (a 3+1 form written with gxx, alpha, betax, ...); value used
+# at every evaluation point
+PARAMS = {"gxx": Fraction(3, 5), "gxy": Fraction(1, 4), "gyy": Fraction(5, 7),
+          "gxz": Fraction(-1, 3), "gzz": Fraction(4, 3),
+          "gyx": Fraction(2, 7), "gdet": Fraction(7, 5),
+          "alpha": Fraction(6, 5), "betax": Fraction(1, 3),
+          "M": Fraction(2, 1)}
+
+
 def build_metric(case):
     n = case["dim"]
     X = coords_of(n)
     g = sp.zeros(n, n)
+    par = case.get("param")
     for i, d in enumerate(case["diag"]):
         g[i, i] = d["sign"] * (d["D"] + entry(d["terms"], X))
+        if par and par["slot"] % n == i:
+            g[i, i] = g[i, i] * (1 + sp.Symbol(par["name"]) / 4)
     for o in case["off"]:
         i, j = o["i"], o["j"]
         g[i, j] = g[j, i] = entry(o["terms"], X)
@@ -138,12 +154,12 @@ def all_terms(case):
 
 
 def is_exact(case):
-    return not any(t["f"] in ("sin", "exp") for t in all_terms(case))
+    return not any(t["f"] in ("sin", "exp", "abs") for t in all_terms(case))
 
 
 def metric_kind(case):
     fs = {t["f"] for t in all_terms(case)}
-    if fs & {"sin", "exp"}:
+    if fs & {"sin", "exp", "abs"}:
         return "transcendental"
     if fs & {"rat", "rat2"}:
         return "rational"
@@ -162,7 +178,11 @@ def diag_variant(case, **kw):
 
 
 def points_of(case):
-    return [[Fraction(int(p), int(q)) for p, q in pt] for pt in case["points"]]
+    pts = [[Fraction(int(p), int(q)) for p, q in pt] for pt in case["points"]]
+    if any(t["f"] == "abs" for t in all_terms(case)):
+        # |x| is not differentiable at 0: evaluate next to it instead
+        pts = [[c if c != 0 else Fraction(-1, 3) for c in pt] for pt in pts]
+    return pts
 
 
 # ---------------------------------------------------------------------------
@@ -206,7 +226,11 @@ class Evaluator:
             try:
                 r = self.env[e]
             except KeyError:
-                raise Unevaluable(f"free symbol {e}")
+                if e.name in PARAMS:
+                    v = PARAMS[e.name]
+                    r = self.num(v.numerator, v.denominator)
+                else:
+                    raise Unevaluable(f"free symbol {e}")
         elif e.is_Rational:
             r = self.num(e.p, e.q)
         elif e.is_Float:
@@ -893,6 +917,10 @@ def common_classes(case, note):
              f"simplify={case['simplify']}", f"order_len={len(order)}")
     if any(d["sign"] < 0 for d in case["diag"]):
         note.cls("lorentzian")
+    if case.get("param"):
+        note.cls("parameter-named-like-a-library-quantity")
+    if any(t["f"] == "abs" for t in all_terms(case)):
+        note.cls("abs-of-a-coordinate")
 
 
 _CANON = {}
@@ -1125,7 +1153,7 @@ def metric(draw, sizes):
                             terms=[draw(term(kinds, n, OFF_COEF, allowed))
                                    for _ in range(k)]))
     if kind == "trans":
-        t = draw(term(["sin", "exp"], n, DIAG_COEF, allowed))
+        t = draw(term(["sin", "exp", "abs"], n, DIAG_COEF, allowed))
         slot = draw(st.integers(0, n + len(off) - 1))
         if slot < n:
             tt = diag[slot]["terms"]
@@ -1163,6 +1191,9 @@ def case_strategy(draw, sizes, simplify, pair=None, alt=None):
         sizes, simplify = alt[0], alt[1]
     c = draw(metric(sizes))
     c["simplify"] = simplify
+    if draw(st.integers(0, 4)) == 0:
+        c["param"] = dict(name=draw(st.sampled_from(sorted(PARAMS))),
+                          slot=draw(st.integers(0, 3)))
     c["points"] = [draw(point(c["dim"])) for _ in range(2)]
     c["order"] = draw(order_strategy(full_bias=not simplify))
     if pair == "order":
@@ -1286,6 +1317,20 @@ GPROD4 = dict(dim=4,
                       [[-5, 7], [1, 2], [-3, 2], [4, 3]]])
 
 
+# |x| in the metric, evaluated on both sides of x = 0; and metrics carrying
+# constants named like the library's own quantities
+GABS2 = dict(dim=2,
+             diag=[dict(sign=1, D=3, terms=[T((1, 2), "abs", 0)]),
+                   dict(sign=1, D=4, terms=[T((1, 3), "sq", 0)])],
+             off=[], points=[[[-3, 4], [2, 3]], [[5, 7], [-1, 2]]])
+GABS3 = dict(G3S, diag=[G3S["diag"][0],
+                        dict(sign=1, D=4, terms=[T((-1, 3), "abs", 1)]),
+                        G3S["diag"][2]])
+GPAR2 = dict(G2, param=dict(name="gyy", slot=0))
+GPAR3 = dict(G3, param=dict(name="gxx", slot=1))
+GPAR4 = dict(G4, param=dict(name="gxy", slot=2))
+
+
 def fixed(metric_, simplify, order, **kw):
     return dict(metric_, simplify=simplify, order=list(order), **kw)
 
@@ -1315,7 +1360,11 @@ def subchecks(tier):
                      fixed(GNULL3, False, DIRECT_FIRST),
                      fixed(GNULL3, False, UDDD_FIRST),
                      fixed(GPROD3, False, DIRECT_FIRST),
-                     fixed(GPROD4, False, UDDD_FIRST)],
+                     fixed(GPROD4, False, UDDD_FIRST),
+                     fixed(GABS2, False, UDDD_FIRST),
+                     fixed(GPAR2, False, DIRECT_FIRST),
+                     fixed(GPAR3, False, UDDD_FIRST),
+                     fixed(GPAR4, False, ["gdet", "gup", "Gamma_udd"])],
             shards=8 if q else 16, shrink_quick=False, max_rounds=4),
         Sub("order_indep", order_cases, make_test_pair(tier, "order"),
             32 if q else 400,
@@ -1325,7 +1374,10 @@ def subchecks(tier):
             shards=8 if q else 16, shrink_quick=False, max_rounds=3),
         Sub("textbook_simplify", case_strategy(s_sizes, True),
             make_test_textbook(tier), 12 if q else 112,
-            generic=[fixed(G2, True, ["Ricci_down", "Riemann_down",
+            generic=[fixed(GABS2, True, ["gup", "gdet", "Gamma_udd",
+                                         "Riemann_uddd", "Ricci_down"]),
+                     fixed(GPAR2, True, ["gdet", "gup", "Gamma_udd"]),
+                     fixed(G2, True, ["Ricci_down", "Riemann_down",
                                       "Riemann_uddd", "RicciS"]),
                      fixed(G2, True, ["gup", "gdet", "Gamma_udd", "Gamma_down",
                                       "Riemann_uddd", "Riemann_down",
